@@ -36,6 +36,18 @@ def with_delay_fallback(job, k=2):
     return job
 
 
+def mem_jobs(prop, oracles, tier, combos, events_dep=False, **kw):
+    """memory-level pass: the same scenarios on the race-instrumented build, where every map operation
+    and every access to a mutable struct field is a scheduling point too (check-then-act on shared
+    state outside a lock gets interleaved); races themselves are reported by C12 only"""
+    out = []
+    for (g, i, m) in combos:
+        j = wf(prop, g, i, 1, m, "func", oracles=oracles, events_dep=events_dep, tier=tier, race=True, id=f"{prop}-mem-{g}-i{i}-m{m}", **kw)
+        j["no_race_report"] = True
+        out.append(with_delay_fallback(j, 1 if tier == "quick" else 2))
+    return out
+
+
 # ------------------------------------------------------------------------------------ plans
 
 PLANS = {}
@@ -110,7 +122,7 @@ def plan_c04(tier, seed):
         j["no_race_report"] = True
         jobs.append(with_delay_fallback(j, 1 if tier == "quick" else 2))
     return {"level": "model_checking", "native": True, "race_too": True, "stages": [lambda ctx, prev: jobs, maporder_stage("C04", o, tier)],
-            "rule": "every Mazurkiewicz trace (DPOR + sleep sets) of each scenario x configuration; delay bound 2 where the search does not close; MAPORDER pass: each map-range site forced to every other order on the default schedule with <= 1 delay",
+            "rule": "every Mazurkiewicz trace (DPOR + sleep sets) of each scenario x configuration; delay bound 2 where the search does not close; MAPORDER pass: each map-range site forced to every other order on the default schedule with <= 1 delay; memory-level pass: some scenarios again on the race-instrumented build, where map operations and accesses to mutable struct fields are scheduling points too",
             "assumptions": BASE_ASSUMPTIONS + ["multi-in-port processes receive equally long streams; at most one process without out-ports"]}
 
 
@@ -186,8 +198,9 @@ def plan_c05(tier, seed):
         add("g3", 2, 1, 2, runto=["p"], id="C05-g3-runto-p")
         add("g11", 2, 1, 2, runto=["last"], id="C05-g11-runto-last")
         add("g11", 2, 1, 2, runto=["p"], id="C05-g11-runto-p")
-    return {"level": "model_checking", "native": True, "stages": [lambda ctx, prev: jobs],
-            "rule": "every Mazurkiewicz trace of each scenario with start/end/return events mutually dependent (every order not forced by happens-before); at the state where the main thread returns from Run: all started tasks ended, all reference outputs final, no temp dir / FIFO; no deadlock state",
+    jobs.extend(mem_jobs("C05", o, tier, [("g5", 1, 2), ("g10b", 1, 2)] if tier == "quick" else [("g5", 1, 2), ("g10b", 1, 2), ("g4", 1, 2), ("g11", 2, 2), ("g9", 1, 2)], events_dep=True))
+    return {"level": "model_checking", "native": True, "race_too": True, "stages": [lambda ctx, prev: jobs],
+            "rule": "every Mazurkiewicz trace of each scenario with start/end/return events mutually dependent (every order not forced by happens-before); at the state where the main thread returns from Run: all started tasks ended, all reference outputs final, no temp dir / FIFO; no deadlock state; memory-level pass: some scenarios again on the race-instrumented build, where map operations and accesses to mutable struct fields are scheduling points too",
             "assumptions": BASE_ASSUMPTIONS}
 
 
@@ -283,8 +296,9 @@ def plan_c08(tier, seed):
     add("g3", 2, 1, 2, pre={"in1.txt.p.q": "q.out(in=p.out(in=in1.txt;);)"}, id="C08-g3-i2-m2-preq1")
     if tier != "quick":
         add("g2", 3, 2, 2); add("g3", 3, 1, 3); add("g3", 3, 1, 2); add("g5b", 2, 1, 2); add("g5b", 2, 1, 3); add("g12", 3, 1, 2); add("g12", 4, 2, 3); add("g7", 2, 1, 2)
-    return {"level": "model_checking", "native": True, "stages": [lambda ctx, prev: jobs],
-            "rule": "every Mazurkiewicz trace (task completion order is just scheduling); a recorder process reads the observed out-port; emitted sequence == reference arrival order (single upstream) / per-upstream subsequences keep their order (fan-in)",
+    jobs.extend(mem_jobs("C08", o, tier, [("g2", 2, 2), ("g5b", 1, 2)] if tier == "quick" else [("g2", 2, 2), ("g5b", 1, 2), ("g3", 2, 2), ("g2", 3, 2)], extra="recorder"))
+    return {"level": "model_checking", "native": True, "race_too": True, "stages": [lambda ctx, prev: jobs],
+            "rule": "every Mazurkiewicz trace (task completion order is just scheduling); a recorder process reads the observed out-port; emitted sequence == reference arrival order (single upstream) / per-upstream subsequences keep their order (fan-in); memory-level pass: some scenarios again on the race-instrumented build, where map operations and accesses to mutable struct fields are scheduling points too",
             "assumptions": BASE_ASSUMPTIONS}
 
 
@@ -303,10 +317,28 @@ def run_pool(ctx, jobs):
     return results
 
 
+STAGE_WALL = {"quick": 400, "thorough": 1500}   # seconds: upper bound on sum(budgets)/workers of one stage
+
+
+def fit_budgets(ctx, jobs):
+    """scale the per-job exploration budgets of one stage so that even if no search closes the
+    stage stays within STAGE_WALL (searches that close do not use their budget; a scaled-down
+    budget only moves a scenario from 'closed' to 'bounded', which the evidence reports)"""
+    cap = float(os.environ.get("VERIF_STAGE_WALL", STAGE_WALL.get(ctx.get("tier"), 1500)))
+    pool = max(1, int(ctx.get("pool") or 16))
+    est = sum(j.get("budget", 0) for j in jobs) / pool
+    if est > cap:
+        f = cap / est
+        for j in jobs:
+            if j.get("budget"):
+                j["budget"] = max(10, round(j["budget"] * f, 1))
+    return jobs
+
+
 def execute(plan, ctx):
     results = []
     for stage in plan["stages"]:
-        jobs = stage(ctx, results)
+        jobs = fit_budgets(ctx, stage(ctx, results))
         rs = run_pool(ctx, jobs)
         # delay-bounded fallback for searches that did not close in their budget
         fb = []
@@ -325,7 +357,7 @@ def execute(plan, ctx):
                     fb.append(nj)
         results += rs
         if fb:
-            results += run_pool(ctx, fb)
+            results += run_pool(ctx, fit_budgets(ctx, fb))
     if plan.get("native"):
         n, problems = validate_native(plan, ctx, results)
         plan["validated"] = n
